@@ -43,6 +43,7 @@ ASSUMPTIONS = [
     "but the merged entry must still be correct, and a '#new' that did not exist before must not exist afterwards",
     "the contents set is built by hand from fs.fsFile/fsSymlink/fsFifo/fsDir objects with recorded mode/uid/gid/mtime/dev/inode; file data comes from a real source image",
 ]
+TIME_CAP = {"thorough": 3600}  # safety net on a shared machine; a capped run is reported as non-exhaustive
 BOUNDS = {
     "quick": "all 1-entry trees (7 kinds + dir, 8 live states); 2-entry trees on slot pairs F-G, F-H, F-L, H-L over kinds {A,B,C,sd,ff,dir} x full product of 7 live states "
     "(no dangling) per touched slot and 5 parent states; x listed/omitted x explicit-offset/prefixed (+ missing offset dir)",
